@@ -11,7 +11,8 @@ RULE = ("seeded lint-clean circuit x one of limit_fanin/limit_fanout/insert_regi
         "a stage boundary with nodes, or >= 2 gates for acyclic_unroll)")
 PROBES = ["chained_transforms", "fanin>k:and", "fanin>k:nand", "fanin>k:or", "fanin>k:nor", "fanin>k:xor", "fanin>k:xnor",
           "regroup_rounds>=2", "fanout>k:input", "fanout>k:gate", "stage_boundary>=2", "acyclic_unroll:input_is_output"]
-ASSUMPTIONS = ["<= 12 startpoints, <= 22 gates, gates up to 12 operands", "no 'x' constants"]
+ASSUMPTIONS = ["<= 12 startpoints, <= 22 gates, gates up to 12 operands", "no 'x' constants",
+               "names the transforms generate (c0_<n>, aux_in_<n> as startpoint/output names for acyclic_unroll) are avoided: the library refuses such circuits with ValueError"]
 
 
 def gen(rng, tier):
@@ -38,6 +39,15 @@ def gen(rng, tier):
     else:
         net = G.gen_net(rng, n_inputs=(1, 4), n_gates=(1, 10), types=G.swarm_types(rng), max_arity=4, constants=0.2,
                         input_outputs=rng.choice((0.0, 0.3)))
+    if op == "insert_registers" and rng.random() < 0.03:
+        # liveness on a deep reconvergent shape: a two-wide ladder of L levels (2L+2 nodes, every level re-converges)
+        L = rng.randint(18, 26)
+        nodes = {"a0": ["input", [], False], "b0": ["input", [], False]}
+        for l in range(1, L + 1):
+            nodes[f"a{l}"] = [rng.choice(("and", "or", "nand")), [f"a{l-1}", f"b{l-1}"], l == L]
+            nodes[f"b{l}"] = [rng.choice(("xor", "xnor", "nor")), [f"a{l-1}", f"b{l-1}"], l == L]
+        return {"net": {"name": "ladder", "nodes": nodes, "bbs": {}}, "op": op, "k": 2, "stages": rng.randint(1, 4), "pre": [],
+                "bounded": 3000000, "peer": {"seed": rng.getrandbits(32)}}
     pre = []
     if rng.random() < 0.4:
         # a history: earlier transforms whose RESULT (with its generated names) is the argument of the judged call
@@ -107,7 +117,20 @@ def run(case, ctx):
         for i in range(inc, md, inc):
             if sum(1 for n in depth if depth[n] == i) >= 2:
                 ctx.probe("stage_boundary>=2")
-        r = ctx.call("C05.raises", sig, cg.tx.insert_registers, c, case["stages"])
+        if case.get("bounded"):
+            # bounded liveness: the call has to finish within a budget of executed source lines (a deterministic clock)
+            from cgsim.core import bounded, StepLimit
+            ctx.probe("insert_registers:step_budget")
+            try:
+                r, steps = bounded(cg.tx.insert_registers, int(case["bounded"]), c, case["stages"])
+            except StepLimit:
+                ctx.violate("C05.no_progress", f"insert_registers did not finish within {case['bounded']} executed lines on a "
+                            f"{len(nodes)}-node ladder circuit", dict(sig, bounded=True))
+            except Exception as e:
+                ctx.violate("C05.raises", f"insert_registers raised {type(e).__name__}: {e}", dict(sig, exc=type(e).__name__))
+            ctx.stats["traced_lines"] += steps
+        else:
+            r = ctx.call("C05.raises", sig, cg.tx.insert_registers, c, case["stages"])
     else:
         if net["bbs"]:
             raise Skip("acyclic_unroll workload is blackbox-free")
@@ -192,7 +215,7 @@ def run(case, ctx):
 
 
 def sig_key(sig):
-    return (sig.get("op"), sig.get("exc"), sig.get("type"), sig.get("input_is_output"), sig.get("chained"))
+    return (sig.get("op"), sig.get("exc"), sig.get("type"), sig.get("input_is_output"), sig.get("chained"), sig.get("bounded"))
 
 
 def shrink(case):
